@@ -8,7 +8,7 @@
    Reading of the property's index convention (0-based table index, N n -> n-1): DESIGN.md, section C42. *)
 From Coq Require Import ZArith QArith List Bool Reals.
 From PCB Require Import lib.Result lib.PyInt gen.Gen_play model.Play model.PlaySpec
-                        proofs.Play_proofs proofs.Play_freq_proofs.
+                        proofs.Play_proofs proofs.Play_fuel_proofs proofs.Play_freq_proofs.
 Import ListNotations.
 Open Scope Z_scope.
 
@@ -107,6 +107,12 @@ Theorem C42_unknown_command : forall fuel e c r,
   c <> 32 -> c <> 59 -> is_command_char (upper c) = false -> lex (S fuel) e (c :: r) = [CBad ifc].
 Proof. exact lex_unknown_command. Qed.
 Print Assumptions C42_unknown_command.
+
+(* the scanner is total on strings without X substrings: one fuel unit per byte is enough *)
+Theorem C42_scanner_total_without_x : forall e st s,
+  no_x s -> snd (play (S (length s)) e st s) <> OutOfFuel.
+Proof. exact play_total_without_x. Qed.
+Print Assumptions C42_scanner_total_without_x.
 
 (* ---- the frequency table (the only theorems with real-number axioms) *)
 Theorem C42_freq_table : forall i : nat, (i < 84)%nat ->
